@@ -53,7 +53,7 @@ def items():
         Fn(TU, "contains_comments", mode="stub", sig_edits=[VN]),
         Item(GEN, "enum", "EndTokenType"),
         Fn(GEN, "format_contained_span", mode="stub"),
-        Fn(GEN, "format_token_reference", mode="stub", contract="ensures tok_of(r) == tok_of(*token_reference), token_type_of(tr_token(*token_reference)) is Symbol ==> tr_token(r) == tr_token(*token_reference), token_type_of(tr_token(r)) is Symbol ==> token_type_of(tr_token(*token_reference)) is Symbol,"),
+        Fn(GEN, "format_token_reference", mode="stub", contract="ensures tok_of(r) == tok_of(*token_reference), token_type_of(tr_token(*token_reference)) is Symbol ==> tr_token(r) == tr_token(*token_reference), token_type_of(tr_token(r)) is Symbol ==> token_type_of(tr_token(*token_reference)) is Symbol, is_bracket_tok(r) == is_bracket_tok(*token_reference),"),
         Fn(GEN, "format_symbol", mode="stub"),
         Fn(GEN, "format_end_token", mode="stub"),
         Item(FUN, "enum", "FunctionCallNextNode"),
@@ -91,6 +91,7 @@ def items():
         Fn(EX, "format_expression", contract="""
     requires wf(skel(*expression)),
     ensures expr_post(*expression, r, ExpressionContext::Standard), //# C05.format_expression
+            begins_with_bracket_string(r) ==> may_begin_with_bracket_string(*expression), //# C01.bracket_string_visible
     decreases expression, 1int,
 """),
         Fn(EX, "format_expression_internal", contract="""
@@ -101,6 +102,7 @@ def items():
         no_double_minus(skel(r)), //# C05.single_line.no_double_minus
         forall|p: Pos| #![trigger gamma(context, p)] #![trigger fits(skel(r), p)] gamma(context, p) && fits(skel(*expression), p) ==> fits(skel(r), p), //# C05.single_line.fits
         stays_closed(*expression, r, context), //# C05.single_line.closed
+        begins_with_bracket_string(r) ==> may_begin_with_bracket_string(*expression), //# C01.bracket_string_visible_internal
     decreases expression, 0int,
 """, edits=[
             Hole("""let leading_comments = start_parens
@@ -203,7 +205,30 @@ pub open spec fn prefix_wf(p: Prefix) -> bool { match p { Prefix::Expression(e) 
     requires prefix_wf(*prefix),
     ensures prefix_post(*prefix, r), //# C05.prefix_keeps_parens
 """),
-        Fn(EX, "is_brackets_string", mode="verify", contract="decreases expression,"),
+        Fn(EX, "is_brackets_string", mode="verify", ret="b", contract="""
+    ensures b == may_begin_with_bracket_string(*expression), //# C01.is_brackets_string
+    decreases expression,
+"""),
+        Fn(EX, "process_dot_name", mode="stub"),
+        Raw("""
+pub open spec fn index_post(i: Index, r: Index) -> bool {
+    match i {
+        Index::Brackets { brackets, expression } => match r {
+            // a key that prints with a leading `[[` is separated from the opening bracket: by a space, or (comment
+            // carrying layout) by the newline appended to `[`
+            Index::Brackets { brackets: rb, expression: re } => same_tree(expression, re)
+                && (begins_with_bracket_string(re) ==> expr_padded_left(re) || tok_followed_by_ws(span_open(rb))),
+            _ => false },
+        Index::Dot { .. } => r is Dot,
+        _ => true,
+    }
+}
+pub open spec fn index_wf(i: Index) -> bool { match i { Index::Brackets { expression, .. } => wf(skel(expression)), _ => true } }
+""", module="formatters::expression"),
+        Fn(EX, "format_index", contract="""
+    requires index_wf(*index),
+    ensures index_post(*index, r), //# C01.index_bracket_string
+"""),
     ]
 
 LABELS = {
@@ -212,6 +237,10 @@ LABELS = {
     "C01.double_minus_guard": dict(props=["C01", "C05"], text="the operand handed back for a unary minus is never itself a bare unary minus"),
     "C05.hanging_lhs_context": dict(props=["C05", "C02"], text="the context the hanging path gives to a left operand soundly describes `left operand of this operator` (in particular BinaryLHSExponent for `^`)"),
     "C05.prefix_keeps_parens": dict(props=["C05", "C02"], text="format_prefix (both layout paths): a parenthesised prefix expression keeps its parentheses; operator tree preserved"),
+    "C01.bracket_string_visible": dict(props=["C01"], text="format_expression: if the formatted expression begins with a long-bracket string token, the input was recognisable as such by is_brackets_string (through parentheses, type assertions, left operands)"),
+    "C01.bracket_string_visible_internal": dict(props=["C01"], text="same, for format_expression_internal (induction)"),
+    "C01.is_brackets_string": dict(props=["C01", "C04"], text="is_brackets_string is true exactly for expressions that will print with a leading long-bracket string (any level: `[[`, `[=[`, ...)"),
+    "C01.index_bracket_string": dict(props=["C01", "C04", "C02"], text="format_index: a bracketed key that prints with a leading `[[`/`[=[` is separated from `[` by whitespace; the key's operator tree is preserved"),
     "C05.format_expression": dict(props=["C05", "C02", "C01"], text="format_expression: operator tree preserved modulo redundant parentheses, output re-parse-stable, no `--`"),
     "C05.single_line.erase": dict(props=["C05", "C02"], text="format_expression_internal (single-line path): operator tree preserved modulo redundant parentheses; call/`...` parentheses kept"),
     "C05.single_line.wf": dict(props=["C05", "C02", "C01"], text="single-line path: the output tree re-parses to itself (every operand fits its position)"),
